@@ -19,8 +19,8 @@ CHECK = {
     "entries": [
         {"fn": P + "vC33_dedup"},
         {"fn": P + "vC33_batches", "cases": {"actors": [0, 2, 3], "grains": [0, 1, 3], "sent": [0, 1, 3]}, "cover_optional": ("some-sent-some-unsent",)},
-        {"fn": P + "vC33_relocator4", "tiers": ("quick",), "replay": "model-only", "opts": {"substitute": RELOCATOR_SUBST, "stub": [M + "supervisor.NewSupervisor"]}},
-        {"fn": P + "vC33_relocator5", "tiers": ("thorough",), "replay": "model-only", "opts": {"substitute": RELOCATOR_SUBST, "stub": [M + "supervisor.NewSupervisor"]}},
+        {"fn": P + "vC33_relocator5", "tiers": ("quick",), "replay": "model-only", "opts": {"substitute": RELOCATOR_SUBST, "stub": [M + "supervisor.NewSupervisor"]}},
+        {"fn": P + "vC33_relocator6", "tiers": ("thorough",), "replay": "model-only", "opts": {"substitute": RELOCATOR_SUBST, "stub": [M + "supervisor.NewSupervisor"]}},
         {"fn": P + "vC33_share", "replay": "model-only", "opts": {"substitute": SHARE_SUBST, "feas_from_iter": 1, "feasibility": "light", "unwind": 6, "loop_bounds": {P + "vC33_share": 16}}, "cases_quick": {"shape": [10, 1]}, "cases_thorough": {"shape": [10, 1, 11, 20, 2]},
          "cover_optional": ("actor-lost", "actor-taken-by-leader", "actor-delivered", "lazy-grain-released")},
     ],
@@ -29,6 +29,25 @@ CHECK = {
              "(*" + P + "actorSystem).reportAbortedRelocation", P + "enqueueRelocation", "(*" + P + "actorSystem).releaseGrainForLazyRelocation", M + "supervisor.NewSupervisor"],
     "replace": [{"file": "actor/relocation_worker.go", "old": "defaultRelocationBatchSize = 500", "new": "defaultRelocationBatchSize = 1"}],
     "opts": {"unwind": 16, "birth_guard_stores": True, "map_range": "per_entry", "map_dedup": True, "feas_from_iter": 100},
-    "explanation": "",
-    "bounds": {},
+    "timeout_ms": {"quick": 400000, "thorough": 1800000},
+    "explanation": "(a) vC33_dedup: actorSystem.beginRelocation/endRelocation/relocationJob for every history of 6 operations over 2 addresses against a reference map (a second begin while one is in flight returns false; "
+                   "the registered snapshot is the first one's). (b) vC33_relocator5/6: relocator.startWorker, handleTerminated, abortRelocation, relocationWorker.finish and begin/end/relocationJob executed for every history of "
+                   "5 (thorough 6) events over 2 addresses - node-left notification (also duplicates and re-departures; each with a fresh snapshot as the cluster store clones), relocator handles a queued Rebalance (spawn succeeds "
+                   "or fails), worker completes, worker dies, relocator handles a Terminated - asserting: a notification starts a relocation iff none is in flight for the address; at most one worker relocates an address; "
+                   "live workers have distinct names; the worker gets exactly the registered snapshot; spawn failure / worker death is reported exactly once with the job's own snapshot and releases the job; the Terminated of a "
+                   "completed worker aborts nothing, not even a newer job of the same address; the registry always equals the reference. Substituted: ReceiveContext.Spawn/Watch/Tell (recorders; Spawn fails or returns a PID), "
+                   "actorSystem.reportAbortedRelocation (recorder), fmt.Sprintf (worker name table by sequence number), supervisor.NewSupervisor stubbed; handleNodeLeftEvent itself is transcribed (begin, then queue the Rebalance). "
+                   "(c) vC33_share: relocationWorker.relocateShare with sendBatches, sendBatch, reassignByRole, leastLoadedEligibleSurvivor, survivingPeersExcept, departedNodeOf, buildRelocateBatchRequests, recordUnsent, "
+                   "releaseUndeliverableLazyGrains, relocationFailures.record/merge/items, splitFailures on one peer's share with symbolic roles (leader, target, other survivor, actors), eager flags, 1..2 peers, and an arbitrary "
+                   "success/failure/peer-reported-failure outcome of every RelocateBatch call: every actor ends up accepted by exactly one node or listed as failed exactly once (also when the accepting peer reports it failed); "
+                   "every eager grain likewise; every lazy grain is accepted by one node or has its directory entry released exactly once and is listed only if that release fails. Substituted: retry.Retrier.RunContext (<= "
+                   "relocationBatchMaxAttempts calls), enqueueRelocation (recorder: item taken by the leader), actorSystem.releaseGrainForLazyRelocation (recorder, may fail); remoting client = harness type. "
+                   "(d) vC33_batches: buildRelocateBatchRequests + recordUnsent + splitFailures for list shapes up to 3 actors / 3 grains and every cut point (symbolic eager flags). "
+                   "Outside: relocate()'s errgroup fan-out, allocation (C32), actually re-creating actors on peers, handleNodeLeftEvent's snapshot lookup.",
+    "bounds": {"addresses": 2, "relocator history": "5 events (quick) / 6 (thorough)", "registry history": "6 operations",
+               "share": "quick: 1 actor or 1 grain; thorough: also 1+1, 2 actors, 2 grains (2 actors + 1 grain did not finish in 25 min and is not registered)", "peers": "target + <= 1 other survivor + leader", "roles": "{none, a}",
+               "batches": "<= 3 actors, <= 3 grains, cut after 0/1/3 batches"},
+    "shrunk": "defaultRelocationBatchSize 500 -> 1 (so that shares span several batches)",
+    "assumptions": ["every node-left notification carries a fresh *PeerState (MemoryStore/BoltStore.GetPeerState return clones)", "relocator mailbox: any queued message may be handled next (superset of FIFO)",
+                    "engine options birth_guard_stores, map_range=per_entry, map_dedup; vC33_share uses light loop-feasibility with unwind 6"],
 }
